@@ -66,7 +66,7 @@ Definition frec_b (s : state) (i : nat) (r : frec) : bool :=
    else
      nodup_by Nat.eqb (keys (f_w r)) && negb (is_nil (f_w r)) && allnz_b (f_w r) &&
      forallb (fun '(k, _) => Nat.ltb k n && f_leaf (getf s k)) (f_w r) &&
-     Bool.eqb (f_reuse r) (forallb (fun '(k, _) => f_reuse (getf s k)) (f_w r)) &&
+     implb (f_reuse r) (forallb (fun '(k, _) => f_reuse (getf s k)) (f_w r)) &&
      forallb (I3_b s (f_w r)) (f_pts r)) &&
   forallb (wf_sample_b s) (f_pts r) &&
   forallb (fun t => existsb (sample_eqb t) (f_pts r) && is_nil (gof t)) (f_stat r) &&
@@ -221,7 +221,7 @@ Proof.
             nodup_by Nat.eqb (keys (f_w (getf s i))) = true /\ is_nil (f_w (getf s i)) = false /\
             allnz_b (f_w (getf s i)) = true /\
             forallb (fun '(k, _) => Nat.ltb k (length (funs s)) && f_leaf (getf s k)) (f_w (getf s i)) = true /\
-            Bool.eqb (f_reuse (getf s i)) (forallb (fun '(k, _) => f_reuse (getf s k)) (f_w (getf s i))) = true /\
+            implb (f_reuse (getf s i)) (forallb (fun '(k, _) => f_reuse (getf s k)) (f_w (getf s i))) = true /\
             forallb (I3_b s (f_w (getf s i))) (f_pts (getf s i)) = true).
   { intros i Hi Hl. pose proof (Hf i Hi) as Hc. unfold frec_b in Hc. rewrite Hl in Hc.
     repeat (apply andb_true_iff in Hc as [Hc ?]). apply negb_true_iff in H6. repeat split; assumption. }
@@ -257,5 +257,5 @@ Proof.
     exists (pick (f_w (getf s i)) cs). split; [exact Hcov|]. split.
     + intros E rho w. rewrite <- HsG. apply (peq_b_sound _ _ Ngt Ng HG).
     + intros E rho phi. rewrite <- HsV. apply (eeq_b_sound _ _ Nvt Nv HV).
-  - intros i Hi Hl. destruct (Hcomp i Hi Hl) as (_ & _ & _ & _ & E & _). apply eqb_prop in E. exact E.
+  - intros i Hi Hl Hr. destruct (Hcomp i Hi Hl) as (_ & _ & _ & _ & E & _). rewrite Hr in E. exact E.
 Qed.
